@@ -16,7 +16,7 @@ def run(tier, seed):
     r = core.Run("C10", tier, seed, "exploration", RULE)
     exe = core.build_native()
     c1, s1, n1 = core.run_sharded(exe, "c10gate", seed, tier, 1, timeout=900)
-    per = 400000 if tier == "thorough" else 40000
+    per = 4000000 if tier == "thorough" else 400000
     c2, s2, n2 = core.run_sharded(exe, "c10stub", seed, tier, core.NCPU if tier == "thorough" else 8, extra={"n": per}, timeout=3000)
     r.add_cases(c1, "native/gate")
     r.add_cases(c2, "native/stub")
